@@ -175,7 +175,11 @@ def main() -> None:
         "checks": checks,
         "not_applicable": na,
         "notes": "Exit codes: 0 held, 1 VIOLATION (replay file printed), 2 HARNESS-ERROR. VERIF_SEED selects the explored plans; "
-                 "VERIF_JOBS the worker count. Known findings: /verif/known_findings.json.",
+                 "VERIF_JOBS the worker count; VERIF_REPO_SRC the tree under test (default /repo/src). Known findings: "
+                 "/verif/known_findings.json (2 open entries sharing one root cause in the external x690 package, C19/C20; "
+                 "24 fixed entries (16 fix: commits) whose minimised plans under /verif/regressions are re-run by the checks). Self-tests: "
+                 "`sim/check.py selftest reference|determinism|evidence|fidelity|sensitivity`. Seeded defects from independent "
+                 "sub-agents and the checks that catch them: /verif/seeded, DESIGN.md section 13.",
     }
     with open(os.path.join(ROOT, "MANIFEST.json"), "w") as fh:
         json.dump(manifest, fh, indent=1)
